@@ -1024,6 +1024,16 @@ func implies(a, b string) string {
 // add an obligation
 func (vc *VC) oblige(class, label, guard, formula, clause string, props []string, pos string) *Obligation {
 	o := &Obligation{Func: vc.fn, Class: class, Label: label, Props: props, Guard: guard, Formula: formula, Clause: clause, NDecls: len(vc.lines), Pos: pos}
+	// `checks only c1 c2`: the function is otherwise trusted; of its body only the named obligation classes are
+	// generated (the dropped ones are listed as an assumption)
+	if d := vc.P.Funcs[vc.fn]; d != nil {
+		if co := d.First("checks"); strings.HasPrefix(co, "only ") && class != "cover-pre" && class != "cover-ret" {
+			if !strings.Contains(" "+co[5:]+" ", " "+class+" ") {
+				vc.note("ASSUMED on " + vc.fn + ": every obligation of its body except the classes " + co[5:] + " (checks only)")
+				return o
+			}
+		}
+	}
 	vc.obls = append(vc.obls, o)
 	// vacuity guard: the point where the obligation is checked must be reachable under everything assumed so far
 	if guardCoverClasses[class] && guard != "true" {
